@@ -148,6 +148,8 @@ class StructCore(object):
 
     @classmethod
     def align_value(cls,psize=0):
+        if cls.packed:
+            return 1
         return max([f.align_value(psize) for f in cls.fields])
 
     def unpack(self, data, offset=0, psize=0):
